@@ -52,8 +52,8 @@ Inductive cl_site :=
 | Site_store_misbehaving_proof_unwrap
 | Site_load_misbehaving_proof_unwrap     (* dbm.rs: receipt of a stored proof .unwrap() *)
 | Site_abandon_remove_tower_unwrap       (* main.rs: state.remove_tower(tower_id).unwrap() *)
-| Site_retrier_load_appointment_unwrap   (* retrier.rs: dbm.load_appointment(locator).unwrap() *)
-| Site_retrier_start_status_unwrap       (* retrier.rs: get_tower_status(..).unwrap() in start() *)
+| Site_retrier_load_appointment_unwrap   (* retrier.rs: dbm.load_appointment(locator).unwrap(): REPAIRED (8108569), no longer produced *)
+| Site_retrier_start_status_unwrap       (* retrier.rs: get_tower_status(..).unwrap() in start(): REPAIRED (29264ec), no longer produced *)
 | Site_send_appointment_recover_unwrap.  (* net/http.rs: recover_pk(..).unwrap() *)
 
 Inductive cres :=
@@ -229,12 +229,24 @@ Definition dbm_delete_pending_appointment (d : db) (t l : N) : dbres db :=
          [C_pending_appointments_locator; C_pending_appointments_tower_id] [l; t] false.
 
 (* store_misbehaving_proof: BEGIN; INSERT INTO appointment_receipts; INSERT INTO misbehaving_proofs; COMMIT *)
+Definition proof_row (t l recovered : N) : row :=
+  mkrow T_misbehaving_proofs [(C_misbehaving_proofs_tower_id, t); (C_misbehaving_proofs_locator, l);
+                              (C_misbehaving_proofs_recovered_id, recovered)].
+
 Definition dbm_store_misbehaving_proof (d : db) (t l sb usig tsig recovered : N) : dbres db :=
   match db_insert CS d T_appointment_receipts (receipt_row t l sb usig tsig) with
-  | DbOk d1 =>
-    db_insert CS d1 T_misbehaving_proofs
-      (mkrow T_misbehaving_proofs [(C_misbehaving_proofs_tower_id, t); (C_misbehaving_proofs_locator, l);
-                                   (C_misbehaving_proofs_recovered_id, recovered)])
+  | DbOk d1 => db_insert CS d1 T_misbehaving_proofs (proof_row t l recovered)
+  | DbErr e => DbErr e
+  end.
+
+(* store_misbehaving_proof_over_receipt (fix d35e2bc): a receipt of (tower, locator) is already stored;
+   BEGIN; UPDATE appointment_receipts SET start_block, user_signature, tower_signature WHERE tower_id, locator;
+   INSERT INTO misbehaving_proofs; COMMIT *)
+Definition dbm_store_misbehaving_proof_over_receipt (d : db) (t l sb usig tsig recovered : N) : dbres db :=
+  match db_update CS d T_appointment_receipts [l; t]
+          [(C_appointment_receipts_start_block, sb); (C_appointment_receipts_user_signature, usig);
+           (C_appointment_receipts_tower_signature, tsig)] false with
+  | DbOk d1 => db_insert CS d1 T_misbehaving_proofs (proof_row t l recovered)
   | DbErr e => DbErr e
   end.
 
@@ -312,9 +324,11 @@ Definition wt_add_update_tower (c : client) (t addr slots start expiry sg : N) :
   | None => store
   end.
 
+(* set_tower_status (fix 70d4134): a misbehaving tower keeps that status *)
 Definition wt_set_tower_status (c : client) (t : N) (st : tower_status) : client :=
   match aget (c_towers c) t with
-  | Some s => with_towers c (aset (c_towers c) t (su_with_status s st))
+  | Some s => if is_misbehaving (su_status s) && negb (is_misbehaving st) then c
+              else with_towers c (aset (c_towers c) t (su_with_status s st))
   | None => c
   end.
 
@@ -369,10 +383,19 @@ Definition wt_add_invalid_appointment (c : client) (t l blob delay : N) : client
   | None => (c, RUnknownTower)
   end.
 
+(* flag_misbehaving_tower (fix d35e2bc): a proof already stored for the tower is kept; a receipt already
+   stored for (tower, locator) is replaced by the one of the proof; else both rows are inserted *)
+Definition flag_store (d : db) (t l sb usig tsig recovered : N) : dbres db :=
+  if exists_misbehaving_proof d t then DbOk d
+  else match dbm_load_appointment_receipt d t l with
+       | Some _ => dbm_store_misbehaving_proof_over_receipt d t l sb usig tsig recovered
+       | None => dbm_store_misbehaving_proof d t l sb usig tsig recovered
+       end.
+
 Definition wt_flag_misbehaving_tower (c : client) (t l sb usig tsig recovered : N) : client * cres :=
   match aget (c_towers c) t with
   | Some s =>
-    match dbm_store_misbehaving_proof (c_db c) t l sb usig tsig recovered with
+    match flag_store (c_db c) t l sb usig tsig recovered with
     | DbOk d' => (with_towers (with_db c d') (aset (c_towers c) t (su_with_status s Misbehaving)), ROk)
     | DbErr _ => (poison c, RAbort Site_store_misbehaving_proof_unwrap)
     end
